@@ -93,7 +93,10 @@ class Dir:
             comps = [pv.Composition(p=rng.uniform(0.02, 0.98), type=basis) for _ in range(rng.randrange(2, 6))]
             scale = gen.logu(rng, 1e-6, 1e2)
             perms = [(pv.Permeance(scale * rng.uniform(0.5, 2.0)), pv.Permeance(scale * rng.uniform(0.01, 1.0))) for _ in comps]
-            c = pv.DiffusionCurve(mixture=mix, membrane_name="verif", feed_temperature=T, feed_compositions=comps, permeances=perms)
+            mode = rng.choice(["vac", "temp", "press"])
+            c = pv.DiffusionCurve(mixture=mix, membrane_name="verif", feed_temperature=T, feed_compositions=comps, permeances=perms,
+                                  permeate_temperature=rng.uniform(200.0, T - 30.0) if mode == "temp" else None,
+                                  permeate_pressure=rng.uniform(0.0, 2.0) if mode == "press" else None)
             tmp = d / ("." + name + "_tmp.csv")
             c.save(tmp)                                  # the public writer, one curve per file
             fr = pandas.read_csv(tmp)
